@@ -404,14 +404,25 @@ func runEngCase(waf coraza.WAF, c *eCase, cbp *[]string) string {
 	*cbp = (*cbp)[:0]
 	tx := waf.NewTransaction()
 	defer tx.Close()
+	// equal names share one string, as they do when a connector feeds a parsed query string or form
+	// (url.ParseQuery yields one key string per name): the transformation cache keys on that pointer
+	names := map[string]string{}
+	name := func(h string) string {
+		k := gen.Unfield(h)
+		if s, ok := names[k]; ok {
+			return s
+		}
+		names[k] = k
+		return k
+	}
 	for _, p := range c.Get {
-		tx.AddGetRequestArgument(gen.Unfield(p[0]), gen.Unfield(p[1]))
+		tx.AddGetRequestArgument(name(p[0]), gen.Unfield(p[1]))
 	}
 	for _, p := range c.Post {
-		tx.AddPostRequestArgument(gen.Unfield(p[0]), gen.Unfield(p[1]))
+		tx.AddPostRequestArgument(name(p[0]), gen.Unfield(p[1]))
 	}
 	for _, p := range c.Hdr {
-		tx.AddRequestHeader(gen.Unfield(p[0]), gen.Unfield(p[1]))
+		tx.AddRequestHeader(name(p[0]), gen.Unfield(p[1]))
 	}
 	var outs []string
 	for _, call := range c.Calls {
@@ -458,10 +469,10 @@ func runEngCase(waf coraza.WAF, c *eCase, cbp *[]string) string {
 
 var (
 	eKeys   = []string{"a", "b", "A", "c", "Ab"}
-	eVals   = []string{"x", "y", "xy", "X", "1", "2", "10", "", " x ", "%78", "x\x00"}
-	eTxKeys = []string{"s", "n", "k", "S", "1"} // TX.1 exists from the start and is empty (capture slot)
+	eVals   = []string{"x", "y", "xy", "X", "1", "2", "10", "", " x ", "%78", "x\x00", "%2578", "%252578", "10.1.2.3", "192.168.1.7", "1.2.3.4"} // double encodings: urlDecode is not idempotent
+	eTxKeys = []string{"s", "n", "k", "S", "1"}                                                            // TX.1 exists from the start and is empty (capture slot)
 	eMapVar = []string{"ARGS_GET", "ARGS_POST", "ARGS", "REQUEST_HEADERS", "TX", "ARGS_NAMES", "ARGS_GET_NAMES", "ARGS_POST_NAMES", "REQUEST_HEADERS_NAMES", "MATCHED_VARS", "MATCHED_VARS_NAMES"}
-	eOps    = []string{"streq", "contains", "beginsWith", "endsWith", "within", "eq", "ge", "gt", "le", "lt", "pm", "unconditionalMatch", "noMatch"}
+	eOps    = []string{"streq", "contains", "beginsWith", "endsWith", "within", "eq", "ge", "gt", "le", "lt", "pm", "unconditionalMatch", "noMatch", "ipMatch"}
 	eTfs    = []string{"lowercase", "uppercase", "trim", "urlDecode", "removeNulls", "hexEncode", "length", "trimLeft", "urlEncode"}
 	// regex keys (`VAR:/re/`, `!VAR:/re/`, ctl …;VAR:/re/) over the key vocabulary; all inside the
 	// fragment of lean/Coraza/Model/Regex.lean; upper-case letters and \D \W \S because the code
@@ -486,7 +497,7 @@ func isRxField(k string) bool {
 }
 
 type engProfile struct {
-	flow, disr, acct, ctl, chains, cache, apiOrder, modeSwitch, rxkeys, dirs float64
+	flow, disr, acct, ctl, chains, cache, apiOrder, modeSwitch, rxkeys, dirs, allows float64
 }
 
 func genLink(r *gen.R, p engProfile, first, prevDet bool, ruleIDs []int) (eLink, bool) {
@@ -529,12 +540,15 @@ func genLink(r *gen.R, p engProfile, first, prevDet bool, ruleIDs []int) (eLink,
 		op.A = gen.Field(r.Pick("0", "1", "2", "10"))
 	case "pm":
 		op.A = gen.Field(r.Pick("x y", "xy", "X 10", "ab  x"))
+	case "ipMatch":
+		// several networks: which entry matches depends on the value (the operator is shared by all transactions)
+		op.A = gen.Field(r.Pick("10.0.0.0/8,192.168.1.0/24,1.2.3.4", "192.168.1.0/24,10.0.0.0/8", "1.2.3.4,::1,10.1.0.0/16"))
 	case "unconditionalMatch", "noMatch":
 		op.A = "-"
 	default:
 		op.A = gen.Field(r.Pick("x", "y", "xy", "1", "a", "ARGS_GET:a"))
 	}
-	if det && op.N != "unconditionalMatch" && op.N != "noMatch" && op.N != "pm" && r.Chance(0.12) {
+	if det && op.N != "unconditionalMatch" && op.N != "noMatch" && op.N != "pm" && op.N != "ipMatch" && r.Chance(0.12) {
 		op.A = gen.Field("%{tx." + r.Pick(eTxKeys...) + "}")
 	}
 	l.Op = op
@@ -544,6 +558,11 @@ func genLink(r *gen.R, p engProfile, first, prevDet bool, ruleIDs []int) (eLink,
 	}
 	for i := 0; i < ntf; i++ {
 		l.Tfs = append(l.Tfs, eTfs[r.Intn(len(eTfs))])
+	}
+	if p.cache > 0 && len(curTfBase) > 0 && r.Chance(0.6) {
+		// rules of one case share prefixes of one transformation list (the cache stores per prefix)
+		l.Tfs = append([]string{}, curTfBase[:1+r.Intn(len(curTfBase))]...)
+		ntf = len(l.Tfs)
 	}
 	l.MM = ntf > 0 && r.Chance(0.25)
 	na := 0
@@ -720,7 +739,24 @@ func genDirective(r *gen.R, p engProfile, ids []int) eRule {
 	return d
 }
 
+// the transformation list whose prefixes the rules of the current case share (cache profile)
+var curTfBase []string
+
+// the key (and collection) of the cache trio of the current case, "" if none
+var cacheTrioName, cacheTrioVar string
+
 func genEngCase(r *gen.R, p engProfile) *eCase {
+	curTfBase = nil
+	if p.cache > 0 {
+		n := 2 + r.Intn(2)
+		for i := 0; i < n; i++ {
+			t := eTfs[r.Intn(len(eTfs))]
+			if i == 0 && r.Chance(0.6) {
+				t = r.Pick("urlDecode", "urlDecode", "trim", "hexEncode") // not idempotent / changes the value
+			}
+			curTfBase = append(curTfBase, t)
+		}
+	}
 	c := &eCase{Mode: "On", Get: [][2]string{}, Post: [][2]string{}, Hdr: [][2]string{}}
 	switch {
 	case r.Chance(0.2 + p.modeSwitch):
@@ -770,6 +806,13 @@ func genEngCase(r *gen.R, p engProfile) *eCase {
 				ru.St = []int{301, 302, 307, 400, 404, 500, 200}[r.Intn(7)]
 			}
 		}
+		if p.allows > 0 && r.Chance(p.allows) {
+			// several allow scopes in one transaction, in the response phases too
+			ru.Disr = r.Pick("allow", "allow:phase", "allow:request", "allow:request")
+			if r.Chance(0.5) {
+				ru.Ph = 2 + r.Intn(3)
+			}
+		}
 		if r.Chance(0.08 + p.flow) {
 			ru.Skip = 1 + r.Intn(3)
 		}
@@ -786,6 +829,33 @@ func genEngCase(r *gen.R, p engProfile) *eCase {
 	}
 	if r.Chance(0.1 + p.flow/2) {
 		c.Rules = append(c.Rules, eRule{ID: 0, Ph: 0, Mk: gen.Field(r.Pick(markers...)), Links: []eLink{{Tg: []eTarget{}, Tfs: []string{}, NA: []eNAct{}}}, Rt: "-", Sa: "-", Sev: -1, Tags: []string{}})
+	}
+	if p.cache > 0 && r.Chance(0.25) {
+		// three rules of one phase sharing a transformation prefix over one collection: the first two read
+		// the whole collection (positions depend on the runtime's map order), the third one key of it;
+		// the request repeats that key with a value, its urlDecode and the urlDecode of that, next to
+		// another key — so one cache slot (key string, position) holds different values for different rules
+		v := r.Pick("ARGS", "ARGS_GET", "ARGS_POST")
+		ph := 1 + r.Intn(2)
+		t2 := r.Pick("lowercase", "trim", "length", "hexEncode", "uppercase", "urlDecode")
+		mk := func(id int, key string, tfs []string, op, arg string) eRule {
+			return eRule{ID: id, Ph: ph, Mk: "-", Rt: "-", Sa: "-", Sev: -1, Tags: []string{}, Log: true, Audit: true,
+				Links: []eLink{{Tg: []eTarget{{V: v, K: key, X: []string{}}}, Op: &eOp{N: op, A: gen.Field(arg)}, Tfs: tfs, NA: []eNAct{}}}}
+		}
+		n := r.Pick("a", "b")
+		trio := []eRule{
+			mk(1, "-", []string{"urlDecode"}, "streq", r.Pick("never", "x", "%78")),
+			mk(2, "-", []string{"urlDecode", t2}, r.Pick("streq", "contains"), r.Pick("never", "x", "3")),
+			mk(3, gen.Field(n), []string{"urlDecode", t2}, r.Pick("streq", "contains", "beginsWith"), r.Pick("x", "X", "1", "78", "%")),
+		}
+		if r.Chance(0.3) {
+			trio[0], trio[1] = trio[1], trio[0]
+		}
+		pos := r.Intn(len(c.Rules) + 1)
+		c.Rules = append(c.Rules[:pos], append(trio, c.Rules[pos:]...)...)
+		cacheTrioName, cacheTrioVar = n, v
+	} else {
+		cacheTrioName = ""
 	}
 	if p.ctl >= 0.3 && r.Chance(0.3) {
 		// run-time target exclusions aimed at a rule that exists and at variables it really reads:
@@ -815,7 +885,7 @@ func genEngCase(r *gen.R, p engProfile) *eCase {
 				}
 				l.NA = append(l.NA, eNAct{N: "ctlRemoveTargetById", Lo: ru.ID, Hi: ru.ID, Var: t.V, K: key})
 			}
-			g := eRule{ID: 7, Ph: 1, Mk: "-", Rt: "-", Sa: "-", Sev: -1, Tags: []string{}, Links: []eLink{l}}
+			g := eRule{ID: 6, Ph: 1, Mk: "-", Rt: "-", Sa: "-", Sev: -1, Tags: []string{}, Links: []eLink{l}}
 			c.Rules = append([]eRule{g}, c.Rules...)
 		}
 	}
@@ -839,6 +909,9 @@ func genEngCase(r *gen.R, p engProfile) *eCase {
 			if r.Chance(0.1) {
 				v = r.Bytes(2)
 			}
+			if p.cache > 0 && r.Chance(0.35) {
+				v = r.Pick("%78", "%2578", "%252578", "x", " %78", "%2578 ") // each the urlDecode of the next
+			}
 			k := r.Pick(eKeys...)
 			if oddKeys && r.Chance(0.3) {
 				k = r.Pick("\xff", "K", "c\xc3\xa9", "İ")
@@ -850,6 +923,20 @@ func genEngCase(r *gen.R, p engProfile) *eCase {
 		return out
 	}
 	c.Get, c.Post, c.Hdr = pairs(), pairs(), pairs()
+	if cacheTrioName != "" {
+		other := map[string]string{"a": "b", "b": "a"}[cacheTrioName]
+		add := [][2]string{{gen.Field(other), gen.Field(r.Pick("z", "x", "%78"))}}
+		for _, val := range []string{"%252578", "%2578", "%78"} {
+			if r.Chance(0.75) {
+				add = append(add, [2]string{gen.Field(cacheTrioName), gen.Field(val)})
+			}
+		}
+		if cacheTrioVar == "ARGS_POST" {
+			c.Post = append(c.Post, add...)
+		} else {
+			c.Get = append(c.Get, add...)
+		}
+	}
 	if r.Chance(0.6 - p.apiOrder) {
 		c.Calls = []string{"h1", "b2", "h3", "b4", "lg"}
 	} else {
@@ -863,7 +950,7 @@ func genEngCase(r *gen.R, p engProfile) *eCase {
 
 var engProfiles = map[string]engProfile{
 	"":      {},
-	"flow":  {flow: 0.3, chains: 0.1, disr: 0.1},
+	"flow":  {flow: 0.3, chains: 0.1, disr: 0.1, allows: 0.2},
 	"api":   {disr: 0.35, apiOrder: 0.35, ctl: 0.1, modeSwitch: 0.2},
 	"acct":  {acct: 0.4, chains: 0.2},
 	"ctl":   {ctl: 0.35, rxkeys: 0.15, dirs: 0.45},
@@ -982,6 +1069,15 @@ func init() {
 			for k := 0; k < 2; k++ {
 				cs.Get = append(cs.Get, [2]string{gen.Field(c.r.Pick("a", "b", "A")), gen.Field(c.r.Pick(eVals...))})
 				cs.Post = append(cs.Post, [2]string{gen.Field(c.r.Pick("a", "b", "A")), gen.Field(c.r.Pick(eVals...))})
+			}
+			if c.r.Chance(0.5) {
+				// one name carrying a value, its urlDecode and the urlDecode of that
+				n := c.r.Pick("a", "b")
+				for _, v := range []string{"%252578", "%2578", "%78"} {
+					if c.r.Chance(0.8) {
+						cs.Get = append(cs.Get, [2]string{gen.Field(n), gen.Field(v)})
+					}
+				}
 			}
 			b, _ := json.Marshal(cs)
 			obs := c.run("engrep", string(b))
